@@ -372,10 +372,15 @@ class Lab(object):
                 # from the URL a name the real route takes from its route-level resources
                 from clastic import POST
                 n = cfg['decoy']
-                ep2 = self.make_callable(cfg['endpoint']['sig'], 'plain', self.decoy_impl)
+                ep2 = self.make_callable(cfg['endpoint']['sig'], 'plain', self.reenter_impl if cfg.get('reenter') else self.decoy_impl)
                 rn2 = self.make_callable(cfg['render']['sig'], 'plain', self.decoy_impl)
-                routes.append(POST('/<%s>/k%s' % (n, binds), ep2, rn2, middlewares=route_mws,
-                                   resources=dict((x, self.reg['R:' + x]) for x in cfg['route_resources'] if x != n)))
+                dres = dict((x, self.reg['R:' + x]) for x in cfg['route_resources'] if x != n)
+                if cfg.get('decoy_extra'):
+                    # a resource only THIS sibling route carries: no other route may ever see it
+                    dres[cfg['decoy_extra']] = Sent('R:%s!of-the-sibling-route' % cfg['decoy_extra'])
+                # 'reenter': the sibling admits the request, serves ANOTHER request of its own on the same application
+                # while doing so, and then steps aside with a non-breaking 404: the real route answers the outer request
+                routes.append((Route if cfg.get('reenter') else POST)('/<%s>/k%s' % (n, binds), ep2, rn2, middlewares=route_mws, resources=dres))
             via_factory = bool(cfg['render'].get('factory'))
             routes.append(Route(pattern, ep, 'render-argument' if via_factory else rn, middlewares=route_mws,
                                 resources=dict((n, self.reg['R:' + n]) for n in cfg['route_resources'])))
@@ -396,7 +401,21 @@ class Lab(object):
                                        middlewares=app_mws, error_handler=handler, render_factory=factory)
         except Exception as e:
             return type(e).__name__
+        if cfg.get('reenter') and cfg.get('decoy'):
+            real = self.app.routes[-1]
+            orig = real.execute
+
+            def execute(*a, **kw):
+                self.rec = self.real_rec          # from here on the functions of the real route are recorded
+                return orig(*a, **kw)
+            real.execute = execute
         return 'ok'
+
+    def reenter_impl(self, kwargs):
+        from harness import wsgi
+        from clastic.errors import NotFound
+        wsgi.call(self.app, wsgi.environ('/zzz/nomatch'))        # a request inside the request, same application
+        raise NotFound(is_breaking=False)
 
     def decoy_impl(self, kwargs):
         self.rec.append(['enter', 'DECOY-ROUTE-SERVED', self.received(kwargs)])
@@ -405,9 +424,13 @@ class Lab(object):
     def request(self, path):
         from harness import wsgi
         self.rec = []
+        self.real_rec = self.rec
+        if self.cfg.get('reenter') and self.cfg.get('decoy') and path != '/zzz/nomatch':
+            self.rec = []                 # what the sibling route's chain records is not the subject
         env = wsgi.environ(path)
         self.cur = {'environ': env, 'app': self.app}
         r = wsgi.call(self.app, env)
+        self.rec = self.real_rec
         for v in self.seen_lists:
             v.append('MUTATED-BY-AN-EARLIER-REQUEST')      # a value of one request must never reach another
         self.seen_lists = []
@@ -619,9 +642,25 @@ def _gen_config(rng, defect=None, posonly=False, embed=None):
     if d and (d in cfg['url'] or d in (cfg.get('outer') or {}).get('prefix_url', []) or cfg['route_resources'].count(d) != 1
               or d in BUILTINS4 + ['context', 'next']):
         del cfg['decoy']                  # the decoy pattern would bind one name twice: an invalid pattern, not this lab's subject
+    if cfg.get('decoy') and not defect:
+        # a name some function of the real route takes WITH A DEFAULT and that nothing offers there: the sibling route
+        # before it (the decoy) has a resource of that name
+        offered = set(url + resources + route_resources + o_names + BUILTINS4 + ['next', 'context'])
+        for m in all_specs(cfg):
+            offered.update(m['provides'] + m['endpoint_provides'] + m['render_provides'])
+        cand = set()
+        for sg in [cfg['endpoint']['sig'], cfg['render']['sig']] + [m[f] for m in cfg['route_mws'] for f in ('request', 'endpoint', 'render') if m.get(f)]:
+            cand.update(x for x in sg['defaulted'] if x not in offered)
+        # the decoy route runs the same functions: the name must not be required by any of them
+        for sg in [cfg['endpoint']['sig'], cfg['render']['sig']]:
+            cand -= set(x for x in sg['pos'] + sg['kwonly'] if x not in sg['defaulted'])
+        if cand and rng.random() < 0.7:
+            cfg['decoy_extra'] = sorted(cand)[0]
     cfg['scripts'] = gen_scripts(rng, cfg)
     if rng.random() < 0.3:
         cfg['dslash'] = True
+    if cfg.get('decoy') and not cfg['scripts']['mw'] and rng.random() < 0.6:
+        cfg['reenter'] = True
     if rng.random() < 0.25:
         # one letter of the alphabet becomes a name the framework's generated code uses itself
         cfg = rename(cfg, rng.choice(ALPHA), rng.choice(EXOTIC))
@@ -771,13 +810,18 @@ def apply_defect(rng, cfg, d):
         if m:
             m['request'] = {'pos': [], 'posonly': 0, 'kwonly': [], 'defaulted': []}
             sync(cfg, m)
-    elif d == 'next_in_endpoint':
-        s = cfg['endpoint']['sig']
-        s['pos'] = s['pos'] + ['next'] if not s['defaulted'] else ['next'] + s['pos']
-        s['posonly'] = 0
-    elif d == 'next_in_render':
-        s = cfg['render']['sig']
-        s['pos'] = s['pos'] + ['next'] if not s['defaulted'] else ['next'] + s['pos']
+    elif d in ('next_in_endpoint', 'next_in_render'):
+        s = cfg['endpoint' if d == 'next_in_endpoint' else 'render']['sig']
+        how = rng.choice(['required', 'required', 'defaulted', 'kwonly_defaulted'])
+        if how == 'required':
+            s['pos'] = s['pos'] + ['next'] if not s['defaulted'] else ['next'] + s['pos']
+        elif how == 'defaulted':
+            # def login(request, next=None): the reserved name with a default of its own is the reserved name all the same
+            s['pos'] = s['pos'] + ['next']
+            s['defaulted'] = s['defaulted'] + ['next']
+        else:
+            s['kwonly'] = s['kwonly'] + ['next']
+            s['defaulted'] = s['defaulted'] + ['next']
         s['posonly'] = 0
     elif d in ('context_in_request', 'context_in_endpoint'):
         f = 'request' if d == 'context_in_request' else 'endpoint'
